@@ -328,7 +328,7 @@ def propagate_fresh_locals(modules, known, rep):
         key = f"{rel}::{sc}.{fn.name}"
         if key not in kl:
             continue
-        known_locals = set(kl[key])
+        known_locals = set(kl[key])  # dict name -> [stores, loads]
         if any(isinstance(x, FUNC + (ast.Lambda,)) and x is not fn for x in ast.walk(fn)):
             continue
         params = set(_params(fn))
@@ -434,11 +434,46 @@ def snapshot_extra(modules) -> dict:
         if key in params:
             continue  # property setter shares the name: the getter is the known one
         params[key] = _params(fn)
-        names = set()
-        for n in ast.walk(fn):
-            if isinstance(n, ast.Name) and isinstance(n.ctx, (ast.Store, ast.Del)):
-                names.add(n.id)
-            elif isinstance(n, ast.ExceptHandler) and n.name:
-                names.add(n.name)
-        locs[key] = sorted(names)
+        locs[key] = _local_use(fn)
     return {"params": params, "locals": locs}
+
+
+def _local_use(fn) -> dict:
+    """local name -> [stores, loads] (parameters excluded)."""
+    params = set(_params(fn))
+    use = {}
+    for n in ast.walk(fn):
+        if isinstance(n, ast.Name) and n.id not in params:
+            u = use.setdefault(n.id, [0, 0])
+            u[0 if isinstance(n.ctx, (ast.Store, ast.Del)) else 1] += 1
+        elif isinstance(n, ast.ExceptHandler) and n.name:
+            use.setdefault(n.name, [0, 0])[0] += 1
+    return {k: v for k, v in use.items() if v[0] > 0}
+
+
+def undo_local_renames(modules, known, rep):
+    """A known local vanished from a function and exactly one new local with the same number of stores and loads
+    appeared: the same local under a new name."""
+    kl = known.get("locals") or {}
+    for rel, sc, fn in all_functions(modules):
+        want = kl.get(f"{rel}::{sc}.{fn.name}")
+        if not isinstance(want, dict):
+            continue
+        have = _local_use(fn)
+        vanished = {k: tuple(v) for k, v in want.items() if k not in have}
+        fresh = {k: tuple(v) for k, v in have.items() if k not in want}
+        if not vanished or not fresh:
+            continue
+        allnames = {n.id for n in ast.walk(fn) if isinstance(n, ast.Name)}
+        for old, sig in sorted(vanished.items()):
+            cands = [f for f, s2 in fresh.items() if s2 == sig]
+            if len(cands) != 1 or [o for o, s2 in vanished.items() if s2 == sig] != [old] or old in allnames:
+                continue
+            new = cands[0]
+            for n in ast.walk(fn):
+                if isinstance(n, ast.Name) and n.id == new:
+                    n.id = old
+                elif isinstance(n, ast.ExceptHandler) and n.name == new:
+                    n.name = old
+            del fresh[new]
+            rep.renamed.append((f"{sc + '.' if sc else ''}{fn.name} local", new, old))
